@@ -16,13 +16,23 @@ thread_local! {
     static SECOND_ENV: RefCell<Option<Scratch>> = const { RefCell::new(None) };
 }
 
-/// The same content under a second index number (several indexes in one database).
-fn with_twin(kv: &Kv, twin: u16) -> Kv {
+/// The index numbers the content is duplicated under (several indexes in one database): a
+/// neighbour and both ends of the u16 range.
+fn twins(index: u16) -> Vec<u16> {
+    let mut t = vec![index.wrapping_add(300), u16::MAX, 0];
+    t.retain(|x| *x != index);
+    t.dedup();
+    t
+}
+
+fn with_twins(kv: &Kv, twins: &[u16]) -> Kv {
     let mut out = kv.clone();
-    for (k, v) in kv {
-        let mut k2 = k.clone();
-        k2[0..2].copy_from_slice(&twin.to_be_bytes());
-        out.push((k2, v.clone()));
+    for twin in twins {
+        for (k, v) in kv {
+            let mut k2 = k.clone();
+            k2[0..2].copy_from_slice(&twin.to_be_bytes());
+            out.push((k2, v.clone()));
+        }
     }
     out.sort();
     out
@@ -37,7 +47,7 @@ fn without_versions(kv: &Kv) -> Kv {
 
 pub fn check_state(cfg: &HistCfg, st: &HState, built: bool, w: &mut Worker) -> Result<(), Fail> {
     assert_eq!(cfg.metric, Metric::Cosine, "the 0.4 -> 0.5 upgrade exists for cosine only");
-    let current = with_twin(&st.kv, cfg.index.wrapping_add(300));
+    let current = with_twins(&st.kv, &twins(cfg.index));
     let expected = without_versions(&current);
     SECOND_ENV.with(|s| {
         if s.borrow().is_none() {
@@ -122,7 +132,7 @@ pub fn check_state(cfg: &HistCfg, st: &HState, built: bool, w: &mut Worker) -> R
         let rb = b.env.read_txn().unwrap();
         let has_meta = st.model.built.is_some();
         let pending = st.model.stale;
-        for index in [cfg.index, cfg.index.wrapping_add(300)] {
+        for index in std::iter::once(cfg.index).chain(twins(cfg.index)) {
             let open = arroy::Reader::<arroy::distances::Cosine>::open(&rb, index, arroy_db::<arroy::distances::Cosine>(b.db));
             let got = match &open {
                 Ok(_) => "Ok".to_string(),
